@@ -143,8 +143,27 @@ func parseTrace(logPath, dir string) ([]killPoint, []string) {
 		}
 		return "other:" + rel
 	}
+	// strace splits a call that is pre-empted into "... <unfinished ...>" and
+	// "<... name resumed> ...": stitch the two halves together per thread first
+	pending := map[string]string{}
+	resumed := regexp.MustCompile(`^(\d+)\s+<\.\.\. ([a-z0-9_]+) resumed>(.*)$`)
 	for sc.Scan() {
-		m := straceLine.FindStringSubmatch(sc.Text())
+		line := sc.Text()
+		if strings.HasSuffix(line, "<unfinished ...>") {
+			if mm := straceLine.FindStringSubmatch(line); mm != nil {
+				pending[mm[1]] = strings.TrimSuffix(line, "<unfinished ...>")
+			}
+			continue
+		}
+		if rm := resumed.FindStringSubmatch(line); rm != nil {
+			if head, ok := pending[rm[1]]; ok {
+				delete(pending, rm[1])
+				line = head + rm[3]
+			} else {
+				continue
+			}
+		}
+		m := straceLine.FindStringSubmatch(line)
 		if m == nil {
 			continue
 		}
